@@ -31,7 +31,7 @@ RULE = (
     "X&C, X-C, X^C) is asked of the live objects and of freshly rebuilt copies and must agree (exactly for rational "
     "polygons and booleans/kinds, rel 1e-9 for floats; orientation sign exactly, length magnitude rel 1e-9), agree with a fresh "
     "copy whose redundant vertices were cleaned away (answers must not depend on the subdivision the operators leave behind), and asking "
-    "twice gives the same answers. Configuration axis: 87 programs (polygons, quadratic and cubic curved pairs) in fresh processes with PYTHONHASHSEED 0/1/4242/"
+    "twice gives the same answers. Configuration axis: 112 programs (polygons, quadratic and cubic curved pairs, every factory with default and non-default centre and radius, each twice) in fresh processes with PYTHONHASHSEED 0/1/4242/"
     "random, cold vs warm memo tables (warm = after a tour of the public API on unrelated objects: derivatives of every order on segments of degree 1..4, highest order first, evaluation, split, box, point-on-curve, winding, integrals with explicit node counts, all factories, all operators, transformations, intersection flags, clean; then every program once): identical dumps."
 )
 ASSUMPTIONS = [
